@@ -10,7 +10,9 @@ use crate::{
 };
 
 use super::AnalyzeContext;
-use emmylua_parser::{LuaAst, LuaAstNode, LuaChunk, LuaFuncStat, LuaSyntaxKind, LuaVarExpr};
+use emmylua_parser::{
+    LuaAst, LuaAstNode, LuaBlock, LuaChunk, LuaFuncStat, LuaSyntaxKind, LuaVarExpr,
+};
 use rowan::{TextRange, TextSize, WalkEvent};
 
 use crate::{
@@ -46,7 +48,7 @@ fn walk_node_enter(analyzer: &mut DeclAnalyzer, node: LuaAst) {
             analyzer.create_scope(chunk.get_range(), LuaScopeKind::Normal);
         }
         LuaAst::LuaBlock(block) => {
-            analyzer.create_scope(block.get_range(), LuaScopeKind::Normal);
+            analyzer.create_scope(block.get_range(), block_scope_kind(&block));
         }
         LuaAst::LuaLocalStat(stat) => {
             analyzer.create_scope(stat.get_range(), LuaScopeKind::LocalOrAssignStat);
@@ -117,6 +119,17 @@ fn walk_node_enter(analyzer: &mut DeclAnalyzer, node: LuaAst) {
             docs::analyze_doc_tag_meta(analyzer, doc_tag);
         }
         _ => {}
+    }
+}
+
+/// The body block of a `for` / `repeat` statement is told apart from the closures in its
+/// header / condition by its scope kind, not by its place among the child scopes.
+fn block_scope_kind(block: &LuaBlock) -> LuaScopeKind {
+    match block.get_parent::<LuaAst>() {
+        Some(LuaAst::LuaForStat(_) | LuaAst::LuaForRangeStat(_) | LuaAst::LuaRepeatStat(_)) => {
+            LuaScopeKind::LoopBody
+        }
+        _ => LuaScopeKind::Normal,
     }
 }
 
